@@ -74,8 +74,10 @@ def gen_plan(rng, tier):
             op.update({"op": rng.choice(["correlate", "reweight"]), "partner": rng.choice(["obs", "corr"]), "j": rng.randrange(64), "all_configs": rng.random() < 0.5})
         elif r < 0.97:
             op.update({"op": "repr", "pr": rng.randrange(64), "how": rng.choice(["repr", "print", "str"])})
-        else:
+        elif r < 0.985:
             op.update({"op": rng.choice(["set_prange", "gamma_method"]), "pr": rng.randrange(64)})
+        else:
+            op.update({"op": "interrupt", "f": rng.choice(["add", "mul", "neg", "roll", "symmetric", "sin"]), "j": rng.randrange(64), "frac": round(rng.random(), 4)})
         plan["ops"].append(op)
     return plan
 
@@ -698,6 +700,20 @@ def run_op(ctx, op, C, state, pe):
             C2.set_prange(pr)
         except Exception:
             pass
+        return None
+    if kind == "interrupt":
+        # an operation torn by an interrupt (Ctrl-C between two lines of pyerrors code) must leave every operand intact;
+        # the snapshot comparison in execute() judges that
+        P = state["corrs"][op["j"] % len(state["corrs"])]
+        f = op["f"]
+        fn = {"add": lambda: C + P, "mul": lambda: C * P, "neg": lambda: -C, "roll": lambda: C.roll(1), "symmetric": lambda: C.symmetric(), "sin": lambda: np.sin(C)}[f]
+        st, v, n = objs.run_interruptible(fn, None)
+        if st != "done" or n < 2:
+            raise Skip()
+        k = 1 + int(op["frac"] * (n - 1))
+        st, v, _ = objs.run_interruptible(fn, k)
+        if st == "interrupted":
+            ctx.fault("interrupt_at_line")
         return None
     if kind == "gamma_method":
         try:
